@@ -88,6 +88,17 @@ Section Published.
     intros e f h s j Hf Hop Hs Hj. rewrite <- (accepts_data_equiv _ _ _ _ _ Hj).
     exact (published_model_doc_accepted e f h s Hf Hop Hs).
   Qed.
+  Theorem published_emitted_pkg_accepted : forall (f : nat) (hs : list (hugr op md)) (mods : list (serial sop md))
+      (exts : list json) (emitted : json),
+    4 <= f -> ops_valid0 published_hugr_strict sop op_fields f ->
+    mapM (to_serial enc ndp md_is_nil) hs = Some mods ->
+    (forall e, In e exts -> accepts (3 + f) published_hugr_strict "Extension" e = true) ->
+    data_equiv (pkg_json op_fields md_fields mods exts) emitted = true ->
+    accepts (6 + f) published_hugr_strict "Package" emitted = true.
+  Proof.
+    intros f hs mods exts j Hf Hop Hs He Hj. rewrite <- (accepts_data_equiv _ _ _ _ _ Hj).
+    exact (published_model_pkg_accepted f hs mods exts Hf Hop Hs He).
+  Qed.
 End Published.
 
 (* non-vacuity on the real constant: two operations whose objects the published OpType accepts with every parent
